@@ -133,14 +133,26 @@ func vStopXfer(rc *runCtx) (*vXferConfig, *xferOpts, vSnap, *treeSpec) {
 func vScenarioC10(rc *runCtx) {
 	tp := rc.tape
 	cfg, o, before, _ := vStopXfer(rc)
+	how := []string{"user-keep", "user-delete", "api-keep", "api-delete", "sigint", "sigterm"}[tp.Draw("c10.how", 6)]
+	_, enumerated := rc.enumInt("enum_kind")
+	if v, ok := rc.enumInt("enum_kind"); ok {
+		how = []string{"user-keep", "user-delete", "api-keep", "api-delete", "sigint", "sigterm"}[v%6]
+	}
+	// the stop may come after an earlier pause of this transfer (question opened, left open for a long while - the
+	// user asked never to time out - and answered "continue"): the server's stop is no slower for it
+	priorPause := !enumerated && cfg.upload && (cfg.protocol == 0 || cfg.protocol >= 3) && tp.Bool("c10.priorpause", 150)
+	var priorLen time.Duration
+	if priorPause {
+		cfg.timeout = 0
+		o.flags = cfg.flags()
+		rc.res.Scenario["flags"] = strings.Join(o.flags, " ")
+		how = []string{"sigint", "sigterm"}[tp.Draw("c10.priorhow", 2)]
+		priorLen = time.Duration(40+tp.Draw("c10.priorlen", 120)) * time.Second
+	}
 	T := time.Duration(cfg.timeout) * time.Second
 	x := newXferWorld(rc, o)
 	w := rc.w
 	armed := vArmAfterCfg(x)
-	how := []string{"user-keep", "user-delete", "api-keep", "api-delete", "sigint", "sigterm"}[tp.Draw("c10.how", 6)]
-	if v, ok := rc.enumInt("enum_kind"); ok {
-		how = []string{"user-keep", "user-delete", "api-keep", "api-delete", "sigint", "sigterm"}[v%6]
-	}
 	del := strings.HasSuffix(how, "delete")
 	var stopAt time.Duration = -1
 	pm := []int{30, 100, 400}[tp.Draw("c10.rate", 3)]
@@ -151,7 +163,24 @@ func vScenarioC10(rc *runCtx) {
 	if longThink {
 		think = 3*vMaxDur(T, 20*time.Second) + 15*time.Second + time.Duration(tp.Draw("c10.longextra", 60))*time.Second
 	}
-	vOnChunk(rc, x, armed, pm, func() {
+	stopArmed := armed
+	if priorPause {
+		continued := false
+		stopArmed = func() bool { return continued }
+		vOnChunk(rc, x, armed, pm, func() {
+			rc.fault("earlier-pause-continued")
+			x.paused = true
+			w.Go("user", x.client, func() {
+				x.kbd.Write([]byte{0x03})
+				verifsim.Sleep(priorLen)
+				x.typeKeys("jj", 20*time.Millisecond)
+				x.typeKeys("\r", 20*time.Millisecond)
+				verifsim.Sleep(time.Duration(100+tp.Draw("c10.priorgap", 900)) * time.Millisecond)
+				continued = true
+			})
+		})
+	}
+	vOnChunk(rc, x, stopArmed, pm, func() {
 		rc.fault("stop-" + how)
 		switch how {
 		case "user-keep", "user-delete":
@@ -177,8 +206,9 @@ func vScenarioC10(rc *runCtx) {
 			w.Go("signal", nil, func() { x.server.Signal(sig) })
 		}
 	})
-	rc.res.ClassKey = fmt.Sprintf("%s %s", cfg.key(), how)
+	rc.res.ClassKey = fmt.Sprintf("%s %s prior=%v", cfg.key(), how, priorPause)
 	rc.res.Scenario["stop"] = how
+	rc.res.Scenario["earlier_pause"] = priorLen.String()
 	x.start()
 	w.Run(x.finished)
 	rep := x.report()
